@@ -17,6 +17,8 @@ Decided statically:
   R-C14-6  a member of aligned_allocator that is declared noexcept has no throwing path (allocate's length_error / bad_alloc
            must be able to reach the caller).
   R-C14-7  alignedMalloc writes (memset/memcpy-like calls, indexed stores) only inside [block, block + size).
+  R-C14-8  lock discipline of helper records in malloc.cpp (statistics tables, caches): a data member that some member function
+           accesses while holding the record's mutex is never accessed without it outside constructors/destructor.
   R-C14-4  isAligned(p, a) is  p % a == 0  (or the equivalent mask test).
   W-C14    static_assert witnesses: AlignedVector<T> is std::vector<T, aligned_allocator<T,64>>, the allocator that
            std::vector really allocates through (allocator_traits::rebind_alloc<T>) is aligned_allocator<T,64>, its
@@ -241,6 +243,19 @@ def check_malloc_cpp(ctx, tu, tag, keytag):
                 bad = True
                 continue
             sa, aa = args[fam['size']], args[fam['align']]
+            wr = [e for e in p.events if e[0] == 'wrap']
+            if wr and sa != size:
+                bad = True
+                report(ctx, p, R, inst, 'the byte count handed to %s (`%s`) is computed with `%s`, which wraps around for sizes close to '
+                       'SIZE_MAX: the request shrinks to a few bytes (or to 0, which a later fix-up turns into a small block) and '
+                       'alignedMalloc reports success with a block far shorter than the caller asked for; required: null or a block '
+                       'usable for the full size' % (q, show_val(sa), wr[0][1]), wr[0][2], key + 'size-computation-can-wrap')
+                continue
+            if sa != size and aa == align:
+                slo, shi = p.bounds(size.as_atom())
+                cov, why = size_covers(deconv(sa), size, 1, max(slo, 0), min(shi, SIZE_MAX), p)
+                if cov is True:
+                    sa = size          # at least the requested size (rounded up / padded): the block is usable for the full size
             if sa != size or aa != align:
                 bad = True
                 if sa == align and aa == size:
@@ -410,8 +425,18 @@ def check_block_writes(ctx, inst, key, tu, f, p, al, size, align):
         olo, ohi = off.range(p.bounds)
         llo, lhi = length.range(p.bounds)
         slack_lo, _ = (size - off - length).range(p.bounds)
-        if olo >= 0 and slack_lo >= 0:
-            continue                                            # provably inside the block
+        blo, _bhi = p.bounds(blk.as_atom())
+        if blo <= 0 and lhi > 0:
+            # the destination is computed from a block that was never tested for null on this path
+            fine = False
+            ctx.violation(R7, inst, '%s at %s writes through the block obtained from %s without testing it for null: when the back end refuses '
+                          'the request, alignedMalloc dereferences a null pointer instead of returning null to the caller'
+                          % (what, where, bare(blk.as_atom()[1])), where,
+                          key=key.replace('R-C14-1', R7) + 'write-through-unchecked-null-block')
+            continue
+        inside = slack_lo >= 0 or bool(p.state.get(('pc', Rel.make(size - off - length, '>=', 0))))
+        if olo >= 0 and inside:
+            continue                                            # provably inside the block (interval or a comparison known on the path)
         fine = False
         beyond_lo, _ = (off - size).range(p.bounds)
         if beyond_lo >= 0 and lhi > 0:
@@ -1215,6 +1240,95 @@ def check_witness(ctx, compiler, std, tag):
 
 
 # ================================================================================================
+#  R-C14-8  lock discipline of bookkeeping records in malloc.cpp
+# ================================================================================================
+LOCKS = ('std::lock_guard<', 'std::unique_lock<', 'std::scoped_lock<')
+MUTEXES = ('std::mutex', 'std::recursive_mutex', 'std::timed_mutex', 'std::shared_mutex', 'std::shared_timed_mutex')
+
+
+def lock_discipline(tu, file_filter):
+    """For every record defined in a file accepted by file_filter that has a mutex member: each non-const, non-atomic data member
+    that some member function accesses while holding a lock on that mutex (a lock_guard / unique_lock / scoped_lock variable
+    constructed from it, alive until its scope ends) must be accessed under the lock in every member function other than
+    constructors and the destructor.  -> list of (record, field, locked sites, unlocked sites [(function, loc)])"""
+    out = []
+    for r in tu.records.values():
+        if r.get('lambda'):
+            continue
+        flds = r.get('fields', [])
+        mfields = [f['name'] for f in flds if (f.get('ct') or '').replace('const ', '') in MUTEXES]
+        if not mfields:
+            continue
+        members = [f for f in tu.functions.values() if f.get('recid') == r['id'] and not f['dep'] and tu.cfg(f) is not None]
+        if not members or not file_filter(tu.fn_file(members[0])):
+            continue
+        data = {f['name'] for f in flds if f['name'] not in mfields and not (f.get('type') or '').startswith('const ')
+                and not (f.get('ct') or '').startswith('std::atomic')}
+        acc = {}
+        for f in members:
+            if f.get('ctor') or f.get('dtor'):
+                continue
+            g = tu.cfg(f)
+
+            def transfer(blk, i, e, st, f=f):
+                if e[0] == 'AD':
+                    return [st - {e[1]}] if e[1] in st else [st]
+                if e[0] != 'S':
+                    return [st]
+                n = tu.node(e[1])
+                if n is None:
+                    return [st]
+                k = n.get('kind')
+                if k == 'DeclStmt':
+                    for v in tu.kids(n):
+                        ty = (v.get('type', {}).get('desugaredQualType') or v.get('type', {}).get('qualType') or '')
+                        if v.get('kind') == 'VarDecl' and ty.replace('const ', '').startswith(LOCKS) and \
+                                any(x.get('kind') == 'MemberExpr' and x.get('name') in mfields for x in tu.walk(v)):
+                            st = st | {v['id']}
+                    return [st]
+                if k == 'MemberExpr' and n.get('name') in data and tu.member_of_this(n) == n.get('name'):
+                    acc.setdefault(n['name'], {True: [], False: []})[bool(st)].append((f['q'], tu.loc(n)))
+                return [st]
+            g.explore([frozenset()], transfer)
+        for name, sites in sorted(acc.items()):
+            out.append((r, name, sites[True], sites[False]))
+    return out
+
+
+def check_lock_discipline(ctx, tu, tag):
+    R8 = 'R-C14-8'
+    n = 0
+    for r, name, locked, unlocked in lock_discipline(tu, lambda fn: fn.endswith('rkcommon/memory/malloc.cpp')):
+        if not locked:
+            continue
+        n += 1
+        inst = '%s::%s [%s]' % (r['q'].split('::')[-1], name, tag)
+        if unlocked:
+            fn, loc = unlocked[0]
+            ctx.violation(R8, inst, '`%s` is modified under the lock of the record\'s mutex (%s) but read/written without it in %s (%s): '
+                          'alignedMalloc/alignedFree are called from several threads at once, so the unlocked access races with an insertion '
+                          'or erase that rehashes the container - the bookkeeping itself corrupts memory'
+                          % (name, locked[0][1], fn.split('::')[-1], loc), loc,
+                          key='%s|rkcommon/memory/malloc.cpp|%s|%s:access-outside-lock' % (R8, r['q'].split('::')[-1], name))
+        else:
+            ctx.ok(R8, inst, 'every access in member functions holds the lock (%d sites)' % len(locked), locked[0][1])
+    return n
+
+
+def check_lock_witness(ctx):
+    """the rule has no instance in malloc.cpp today: make sure on every run that it still recognises the planted examples"""
+    R8 = 'R-C14-8'
+    tu = ctx.front.parse('witness/c14_locktable.cpp', 'TBB')
+    res = {(r['q'].split('::')[-1], name): (bool(locked), bool(unlocked))
+           for r, name, locked, unlocked in lock_discipline(tu, lambda fn: fn.endswith('c14_locktable.cpp'))}
+    if res.get(('Good', 'blocks')) == (True, False) and res.get(('Bad', 'blocks')) == (True, True):
+        ctx.ok(R8, 'witness/c14_locktable.cpp', 'guarded member recognised (Good), access outside the lock recognised (Bad)',
+               'verif:witness/c14_locktable.cpp', nontrivial=False)
+    else:
+        ctx.broken('%s: the planted examples in witness/c14_locktable.cpp are not recognised any more: %s' % (R8, res))
+
+
+# ================================================================================================
 def run(ctx):
     ctx.describe('R-C14-1', 'alignedMalloc/alignedFree: matching aligned allocate/release primitives per configuration, (size, align) '
                             'and ptr passed through unchanged in the right positions')
@@ -1225,6 +1339,8 @@ def run(ctx):
     ctx.describe('R-C14-5', 'aligned_allocator::construct(p, t) copy-constructs t at p (bitwise copy only for trivially copyable T)')
     ctx.describe('R-C14-6', 'no aligned_allocator member that is declared noexcept can throw')
     ctx.describe('R-C14-7', 'alignedMalloc writes only inside the size bytes of the block it obtained')
+    ctx.describe('R-C14-8', 'bookkeeping records in malloc.cpp: a member that is accessed under the record\'s mutex somewhere is accessed under '
+                            'it everywhere (alignedMalloc/alignedFree run concurrently)')
     ctx.describe('W-C14', 'AlignedVector<T> allocates through aligned_allocator<T,64> (static_assert witnesses)')
     ctx.assume('scalable_aligned_malloc, _mm_malloc, posix_memalign honour their alignment and size arguments; std::vector uses '
                'its allocator as the standard prescribes')
@@ -1245,6 +1361,8 @@ def run(ctx):
     n1 = n2 = n3 = n4 = 0
     for (c, tag, ex, keytag), tu in zip(mal, tus):
         n1 += check_malloc_cpp(ctx, tu, tag, keytag)
+        check_lock_discipline(ctx, tu, tag)
+    check_lock_witness(ctx)
     for (c, std, tag), tu in zip(drv, tus[len(mal):]):
         _LIB[id(tu)] = next((t for (c2, _t, ex, _k), t in zip(mal, tus) if c2 == c and ex == ND), None)
         n2 += check_allocator(ctx, tu, tag)
